@@ -7,7 +7,7 @@ HARNESS = "b_codecB_p2pwire"
 PKG = "p2pserver/message/types"
 MAX_PAYLOAD_LEN = 30 * 1024 * 1024 - 24
 REJECT = ("magic", "toolong", "checksum", "eof", "err")
-KINDS = ("base", "trunc", "byte", "count", "trail", "magic", "length", "checksum", "header")
+KINDS = ("base", "trunc", "byte", "count", "trail", "magic", "length", "checksum", "header", "random", "randomtrail")
 
 
 def run_cases(ctx, binary, cases, tag):
@@ -30,6 +30,69 @@ def run_cases(ctx, binary, cases, tag):
         ctx.infra("harness reported %d of %d cases" % (len(obs), len(cases)))
         return None
     return obs
+
+
+CMDS = ["ping", "pong", "verack", "version", "addr", "getaddr", "getheaders", "headers", "inv", "getdata", "block", "tx", "consensus",
+        "notfound", "getblocks", "findnode", "findnodeack", "updatekadid", "getmembers", "members", "offline", "mystery"]
+SPECIAL = [0, 0, 1, 2, 0x40, 0x7F, 0x80, 0xFC, 0xFD, 0xFE, 0xFF, 0xFF]
+GOODKEY = [3, 107, 23, 209, 242, 225, 44, 66, 71, 248, 188, 230, 229, 99, 164, 64, 242, 119, 3, 125, 129, 45, 235, 51, 160,
+           244, 161, 57, 69, 216, 152, 194, 150]
+
+
+def rnd_bytes(rng, n):
+    return [rng.choice(SPECIAL) if rng.random() < 0.5 else rng.randrange(256) for _ in range(n)]
+
+
+def rnd_varbytes(rng, maxlen=6):
+    n = rng.randrange(maxlen)
+    body = rnd_bytes(rng, n)
+    pre = [n] if rng.random() < 0.8 else rng.choice([[0xFD, n, 0], [0xFE, n, 0, 0, 0], [0xFD, n, 1]])
+    return pre + body
+
+
+def rnd_payload(rng, cmd):
+    """random byte strings, half of them with the gross structure of the message so that deep branches are reached"""
+    if rng.random() < 0.5:
+        return rnd_bytes(rng, rng.randrange(0, 130))
+    u32 = lambda v: [v & 255, (v >> 8) & 255, 0, 0]
+    if cmd == "addr":
+        k = rng.randrange(0, 4)
+        cnt = rng.choice([k, k, k, k + 1, max(k - 1, 0)])
+        return [cnt, 0, 0, 0, 0, 0, 0, rng.choice([0, 0, 0, 0x80, 0x7F])] + rnd_bytes(rng, 44 * k + rng.choice([0, 0, 3]))
+    if cmd == "inv":
+        k = rng.randrange(0, 4)
+        return [rng.randrange(3)] + u32(rng.choice([k, k, k + 1])) + rnd_bytes(rng, 32 * k + rng.choice([0, 0, 5]))
+    if cmd == "members":
+        k = rng.randrange(0, 4)
+        out = u32(rng.choice([k, k, k + 1]))
+        for _ in range(2 * k):
+            out += rnd_varbytes(rng)
+        return out
+    if cmd == "findnodeack":
+        k = rng.randrange(0, 3)
+        out = rnd_bytes(rng, 20) + [rng.choice([0, 1, 2])] + rnd_varbytes(rng) + u32(rng.choice([k, k, k + 1]))
+        for _ in range(k):
+            out += rnd_bytes(rng, 20) + rnd_varbytes(rng)
+        return out + rnd_bytes(rng, rng.choice([0, 0, 2]))
+    if cmd == "version":
+        return rnd_bytes(rng, 75) + [rng.choice([0, 1, 1, 2])] + rnd_varbytes(rng, 12)
+    if cmd == "consensus":
+        key = list(GOODKEY) if rng.random() < 0.8 else rnd_bytes(rng, 33)
+        return rnd_bytes(rng, 46) + rnd_varbytes(rng) + [33] + key + rnd_varbytes(rng, 70)
+    if cmd == "getmembers":
+        return rnd_bytes(rng, 40) + rng.choice([[0, 0, 0, 0], [1, 0, 0, 0], rnd_bytes(rng, 4)]) + rnd_bytes(rng, rng.choice([0, 0, 40]))
+    return rnd_bytes(rng, rng.choice([0, 1, 8, 20, 32, 33, 65, 66]))
+
+
+def extra_module(rng, per_cmd):
+    rows = []
+    for c in CMDS:
+        ps = {tuple(rnd_payload(rng, c)) for _ in range(per_cmd)}
+        rows.append('c = "%s" -> {%s}' % (c, ", ".join("<<%s>>" % ", ".join(str(x) for x in p) for p in sorted(ps))))
+    return ("---------------------------- MODULE P2PWire_Extra ----------------------------\n"
+            "ExtraGen == [c \\in {%s} |->\n   CASE %s]\n"
+            "=============================================================================\n"
+            % (", ".join('"%s"' % c for c in CMDS), "\n     [] ".join(rows)))
 
 
 def slim(c):
@@ -104,7 +167,8 @@ def run(ctx):
             judge(ctx, [rp["case"]], obs)
         ctx.finish("model_checking", {"states": 0, "transitions": 0, "traces_validated_against_impl": 1, "replay_of": ctx.replay_in})
     cfg = "P2PWire_C24t.cfg" if ctx.thorough else "P2PWire_C24.cfg"
-    r = ctx.tlc("P2PWire_MC", cfg=cfg, workers=1, timeout=2400)
+    per_cmd = 250 if ctx.thorough else 40
+    r = ctx.tlc("P2PWire_MC", cfg=cfg, workers=1, timeout=2400, files={"P2PWire_Extra.tla": extra_module(ctx.rng, per_cmd)})
     cases, stats, worst = [], {}, 0
     if r.status != "ok":
         ctx.infra("TLC did not verify %s: status=%s violated=%s %s" % (cfg, r.status, r.violated, r.errors[:2]))
@@ -151,7 +215,7 @@ def run(ctx):
         "states": ctx.stats["states"], "transitions": ctx.stats["transitions"],
         "traces_validated_against_impl": len(cases), "frames_accepted_by_real_code": nok,
         "cases_by_kind_and_spec_result": stats, "worst_allocation_beyond_read_buffer": worst,
-        "negative_control_violated": neg, "constants": {"cfg": cfg}, "exhaustive": True,
+        "negative_control_violated": neg, "constants": {"cfg": cfg, "random_payloads_per_type": per_cmd}, "exhaustive": True,
     }, ["payload bytes are modelled exactly; numbers >= 2^24 are one abstract value BIG (u64 >= 2^63: NEG)",
         "block headers, blocks, transactions, cross-chain messages, signed subnet requests, offline witnesses and kad ids are opaque tokens in the specification; the harness substitutes real valid encodings built with the repository's types and real keys; a token with its last byte cut off is assumed to be rejected by the nested decoder",
         "'re-serialization reproduces the payload' is required for frames WriteMessage can produce; the decoders' deliberate leniencies (trailing bytes ignored, addr/inv lists clamped to 64, malformed version string -> \"\", legacy block tail, irregular flags/length prefixes in findnodeack) are modelled as such and their output is compared with the specification, not counted as violations",
